@@ -112,6 +112,11 @@ def stable_events(facts, root, kind):
             nm = last_seg(np_)
             if np_ == "core::option::Option::take" and t["args"] and _slot_kind_of_weight_ref(b, t["args"][0]) == kind:
                 ev.append((CLEAR, t["line"], "slot.weight.take()"))
+            elif np_ in ("core::option::Option::replace", "core::option::Option::insert", "core::option::Option::get_or_insert") and t["args"] \
+                    and _slot_kind_of_weight_ref(b, t["args"][0]) == kind:
+                ev.append((SET, t["line"], "slot.weight.%s(value)" % nm))
+            elif np_ == "core::mem::take" and t["args"] and _slot_kind_of_weight_ref(b, t["args"][0]) == kind:
+                ev.append((CLEAR, t["line"], "mem::take(slot.weight)"))
             elif np_ == "core::mem::replace" and t["args"] and _slot_kind_of_weight_ref(b, t["args"][0]) == kind:
                 new = b.expr(t["args"][1], 4)
                 if new[0] == "agg" and new[2] == "None":
